@@ -6,7 +6,7 @@ import ast
 from sa import flow
 from sa.model import AnalysisError, dotted, unparse
 from sa.rules import LEVEL_TEXT, rule
-from sa.rules.util import is_self_attr, iter_body_nodes, qual
+from sa.rules.util import is_self_attr, iter_body_nodes, one_local, pfind, pmatch, qual
 
 LEVEL_TEXT["C02"] = (
     "Decides structural necessary conditions of the clause 'irrespective of how differently the inputs of a multi-input "
@@ -434,8 +434,11 @@ def r02c(ctx):
         if not isinstance(pt.stmt, ast.Expr):
             continue
         c = pt.stmt.value
-        if isinstance(c, ast.Call) and isinstance(c.func, ast.Attribute) and c.func.attr in ("extend", "append") and dotted(c.func.value) == "stack" and pt.loops:
-            ext.append((pt, c))
+        # the work list: the local the enclosing `while` tests and pops from
+        if isinstance(c, ast.Call) and isinstance(c.func, ast.Attribute) and c.func.attr in ("extend", "append") and pt.loops:
+            wl = next((ast.unparse(l.test) for l in pt.loops if isinstance(l, ast.While)), None)
+            if wl is not None and dotted(c.func.value) == wl:
+                ext.append((pt, c))
     if not ext:
         raise AnalysisError("anchor vanished: stack.extend(...) in are_co_aligned")
     for pt, c in ext:
@@ -463,14 +466,15 @@ def r02c(ctx):
             "the walk follows every dependency" if whole else f"`{ast.unparse(c)[:140]}` follows only some of a node's dependencies: an input that is left out is never compared, so differently partitioned inputs are declared co-aligned",
         )
     # fall-through arm: anything that is not IO / scalar / partitionwise / delayed is an ancestor
-    chain = [n for n in ast.walk(fn) if isinstance(n, ast.If) and "isinstance(e, IO)" in ast.unparse(n.test)]
+    chain = [n for n in ast.walk(fn) if isinstance(n, ast.If) and pmatch("isinstance(V_e, IO)", n.test) is not None]
     if not chain:
         raise AnalysisError("anchor vanished: isinstance(e, IO) chain in are_co_aligned")
     last = chain[0]
     while len(last.orelse) == 1 and isinstance(last.orelse[0], ast.If):
         last = last.orelse[0]
-    else_ok = any(isinstance(s, ast.Expr) and "ancestors.append(e)" in ast.unparse(s) for s in last.orelse)
-    io_ok = any(isinstance(s, ast.Expr) and "ancestors.append(e)" in ast.unparse(s) for s in chain[0].body)
+    node_var = one_local(fn, "V_stack.pop()", "the node popped from the work list in are_co_aligned")
+    else_ok = any(isinstance(s, ast.Expr) and pmatch(f"V_anc.append({node_var})", s.value) is not None for s in last.orelse)
+    io_ok = any(isinstance(s, ast.Expr) and pmatch(f"V_anc.append({node_var})", s.value) is not None for s in chain[0].body)
     (ctx.ok if else_ok and io_ok else ctx.bad)(
         "_expr.are_co_aligned:ancestors",
         mod.loc(chain[0]),
@@ -497,7 +501,7 @@ def r02c(ctx):
     # verdict
     rets = [r for r in ast.walk(fn) if isinstance(r, ast.Return) and r.value is not None]
     vd = [ast.unparse(r.value).replace(" ", "") for r in rets]
-    good = bool(vd) and all(v in ("len(unique_ancestors)<=1", "len(unique_ancestors)<2") for v in vd)
+    good = bool(rets) and all(pmatch("len(V_u) <= 1", r.value) is not None or pmatch("len(V_u) < 2", r.value) is not None for r in rets)
     (ctx.ok if good else ctx.bad)(
         "_expr.are_co_aligned:verdict",
         mod.loc(rets[0]) if rets else mod.loc(fn),
